@@ -179,6 +179,7 @@ def tensor_rules(rep, model):
                 n += 1
     # ---- __call__, two outputs ------------------------------------------------
     for uname, spec in (('modf', [('elem', 'x')]),
+                        ('frexp', [('elem', 'x')]),
                         ('divmod', [('elem', 'x'), ('elem', 'y')]),
                         ('divmod', [('arr', 'a'), ('elem', 'x')])):
         u = UFUNCS[uname]
@@ -364,6 +365,7 @@ def discr_rules(rep, model):
             guarded(rep, 'R1', tag, f, DSP)
             n += 1
     for uname, spec in (('modf', [('elem', 'x')]),
+                        ('frexp', [('elem', 'x')]),
                         ('divmod', [('elem', 'x'), ('elem', 'y')])):
         u = UFUNCS[uname]
         for okinds in ((None, None), ('delem', 'delem'), ('delem', None),
@@ -558,7 +560,7 @@ class LH(UH):
 class LI(UI):
     def contains(self, cont, item, node):
         if isinstance(cont, Rec) and cont.kind == 'pspace':
-            return isinstance(item, PElem)
+            return isinstance(item, PElem) and item.space is cont
         return UI.contains(self, cont, item, node)
 
     def assign(self, t, v, scope, func):
@@ -634,9 +636,11 @@ def legacy_rules(rep, model):
             guarded(rep, 'R2', 'x.ufuncs.%s(%s)' % (red, ','.join(
                 '%s=%s' % kv for kv in sorted(kw.items()))), f, UFN)
     # ---- product-space elements -----------------------------------------------------
-    def pelem(H, name, n=2):
-        psp = Rec('pspace')
+    def pelem(H, name, n=2, space=None):
         parts = [tensor(H, '%s%d' % (name, i)) for i in range(n)]
+        if space is not None:
+            return PElem(parts, space)
+        psp = Rec('pspace')
         psp.attrs['element'] = Builtin(
             'pspace.element', lambda inp=None: PElem(
                 list(inp) if inp is not None else [H.mk_tensor(
@@ -645,6 +649,55 @@ def legacy_rules(rep, model):
                     for p in parts], psp))
         return PElem(parts, psp)
 
+    # nested power space (X^2)^2 with an operand from the inner space X^2:
+    # NumPy broadcasting pairs x[i][j] with y[j]
+    def nested(H):
+        inner_sp = Rec('pspace')
+
+        def mk_inner(nm, garbage=False):
+            parts = [H.mk_tensor(
+                tensor(H, 'tmpl').attrs['_LinearSpaceElement__space'],
+                filled(SHAPE, Rat.var('garbage'), 'float64'))
+                if garbage else tensor(H, '%s%d' % (nm, j))
+                for j in range(2)]
+            return PElem(parts, inner_sp)
+        inner_sp.attrs['element'] = Builtin(
+            'pspace.element', lambda inp=None: PElem(list(inp), inner_sp)
+            if inp is not None else mk_inner('g', True))
+        outer_sp = Rec('pspace')
+        outer_sp.attrs['element'] = Builtin(
+            'pspace.element', lambda inp=None: PElem(
+                list(inp) if inp is not None else
+                [mk_inner('g', True) for _ in range(2)], outer_sp))
+        x = PElem([mk_inner('x%d' % i) for i in range(2)], outer_sp)
+        return x, mk_inner('y')
+
+    for variant in ('plain', 'out'):
+        def f(variant=variant):
+            I, H = setup2()
+            x, y = nested(H)
+            u = UFUNCS['add']
+            kw = {}
+            o = None
+            if variant == 'out':
+                o = I.call(x.space.attrs['element'], [], {})
+                kw['out'] = o
+            ret = I.call(I.getattr_value(I.getattr_value(x, 'ufuncs'),
+                                         'add'), [y], kw)
+            if o is not None and ret is not o:
+                return 'returns %r instead of the given out' % (ret,)
+            if not isinstance(ret, PElem) or not all(
+                    isinstance(p, PElem) for p in ret.parts):
+                return 'returns %r' % (ret,)
+            for i, row in enumerate(ret.parts):
+                for j, part in enumerate(row.parts):
+                    want, _ = oracle(model, u, '__call__',
+                                     [x.parts[i].parts[j], y.parts[j]], {})
+                    m = same_entries(data_of(part), entries(want))
+                    if m:
+                        return 'component [%d][%d]: %s' % (i, j, m)
+        guarded(rep, 'R2', 'nested pspace x.ufuncs.add(inner element)[%s]'
+                % variant, f, UFN)
     for name, variant in (('sin', 'plain'), ('sin', 'out'),
                           ('add', 'elem'), ('add', 'elem,out'),
                           ('add', 'scalar'), ('modf', 'plain'),
@@ -656,7 +709,7 @@ def legacy_rules(rep, model):
             args, kw = [], {}
             others = None
             if variant.startswith('elem'):
-                others = pelem(H, 'y')
+                others = pelem(H, 'y', space=x.space)
                 args.append(others)
             elif variant == 'scalar':
                 args.append(3)
